@@ -56,14 +56,14 @@ class PathState:
         return {'heap': dict(self.heap), 'ghost': dict(self.ghost), 'ctx': dict(self.ctx), 'env': dict(self.env), 'now': self.now}
 
 
-_QCACHE: dict[int, bool] = {}
+_QCACHE: dict = {}
 
 
 def _has_quantifier(e) -> bool:
     k = e.get_id()
     r = _QCACHE.get(k)
-    if r is not None:
-        return r
+    if r is not None and r[0].eq(e):      # the cache pins the expression: z3 reuses AST ids of collected terms
+        return r[1]
     seen = set()
     stack = [e]
     found = False
@@ -77,7 +77,7 @@ def _has_quantifier(e) -> bool:
             found = True
             break
         stack.extend(x.children())
-    _QCACHE[k] = found
+    _QCACHE[k] = (e, found)
     return found
 
 
